@@ -258,25 +258,23 @@ impl Service {
     /// 刷新重新纳入本节点管理的实例
     /// 增量http实例增加过期管理
     pub(crate) fn do_refresh_process_range(&mut self) {
-        let instances: Vec<&Arc<Instance>> = self
+        //this node is responsible for the service now: http instances that another node supervised before are taken
+        //over as local ones (only local instances are subject to the heartbeat time-outs), counted from now on
+        let keys: Vec<InstanceShortKey> = self
             .instances
             .values()
             .filter(|instance| !instance.from_grpc && instance.is_from_cluster())
+            .map(|instance| instance.get_short_key())
             .collect();
-        //log::info!("do_refresh_process_range instance size:{}", instances.len());
-        for instance in instances {
-            /*
-            log::info!(
-                "do_refresh_process_range item,key:{:?},last_modified_millis:{},client_id:{}",
-                instance.get_short_key(),
-                instance.last_modified_millis,
-                &instance.client_id
-            );
-             */
-            self.healthy_timeout_set.add(
-                instance.last_modified_millis as u64,
-                instance.get_short_key(),
-            );
+        let now = now_millis() as i64;
+        for key in keys {
+            if let Some(instance) = self.instances.get(&key) {
+                let mut new_instance = instance.as_ref().clone();
+                new_instance.from_cluster = 0;
+                new_instance.last_modified_millis = now;
+                self.healthy_timeout_set.add(now as u64, key.clone());
+                self.instances.insert(key, Arc::new(new_instance));
+            }
         }
     }
 
@@ -485,7 +483,7 @@ impl Service {
     pub fn get_owner_http_instances(&self) -> Vec<Arc<Instance>> {
         self.instances
             .values()
-            .filter(|x| x.client_id.is_empty())
+            .filter(|x| x.client_id.is_empty() && !x.is_from_cluster())
             .cloned()
             .collect::<Vec<_>>()
     }
